@@ -44,6 +44,17 @@ def _case_formulas(op, a, b):
         if la is not None and lb is not None:
             out.append(('lit', '=%s%s%s' % (la, op, lb), None))
         out.append(('cell', '=A1%sB1' % op, {'A1': a, 'B1': b}))
+        # the operands as *results* of other operators (numpy scalars inside the library):
+        # the same value must behave the same wherever it comes from
+        wrap = {'n': '(%s+0)', 't': '(%s&"")', 'b': '(%s=TRUE)'}
+
+        def comp(v, ref):
+            if v['k'] in wrap and not v.get('e', 0):
+                return wrap[v['k']] % ref
+            return ref
+        ca, cb = comp(a, 'A1'), comp(b, 'B1')
+        if (ca, cb) != ('A1', 'B1'):
+            out.append(('cell', '=%s%s%s' % (ca, op, cb), {'A1': a, 'B1': b}))
     return out
 
 
